@@ -176,6 +176,7 @@ def step (c : Cfg) (s : St) : Op → St
       match tn.st with
       | .open _ _ => endIfH1 (closeTun s t) i
       | _ => s
+    else if !aliveS s i then s      -- there is no client left to end or reset anything
     else if protoOf s i = .h1 then
       -- HTTP/1.1: ending or dropping the connection ends the session
       clientGone (endSession s i) i
@@ -186,7 +187,10 @@ def step (c : Cfg) (s : St) : Op → St
       | _ => s
     else
       match tn.st with
-      | .open _ _ | .mux _ => closeTun s t
+      | .open false _ | .mux _ => closeTun s t
+      -- a reset after the client already ended its stream is noticed only when the endpoint
+      -- next writes to it
+      | .open true _ => setTun s t (.open true true)
       | _ => s
   | .udpUp t m n =>
     match (s.tuns.getD t default).st with
